@@ -50,7 +50,8 @@ def test_name(world, tid):
     for c, cs in world['classes'].items():
         if tid in cs['tests']:
             m = world['tests'][tid].get('name', 'test_' + tid)
-            return '%s (tests.%s.%s)' % (m, c, m)
+            p = world['tests'][tid].get('param')
+            return '%s (tests.%s.%s)%s' % (m, c, m, '' if p is None else ' [%s]' % p)
     raise KeyError(tid)
 
 
@@ -301,7 +302,8 @@ def parse_listed(world, names):
             for c, cs in world['classes'].items():
                 if t in cs['tests']:
                     m = world['tests'][t].get('name', 'test_' + t)
-                    by_name.setdefault('%s (tests.%s)' % (m, c), t)
+                    p = world['tests'][t].get('param')
+                    by_name.setdefault('%s (tests.%s)%s' % (m, c, '' if p is None else ' [%s]' % p), t)
     ids, layers, other = [], [], []
     for n in names:
         m = re.match(r'^Layer: (.+)\.(setUp|tearDown)$', n)
